@@ -180,3 +180,171 @@ func (n *normCtx) expr(e ast.Expr) string {
 	}
 	return fmt.Sprintf("<%T %s>", e, exprStr(e))
 }
+
+// linForm is a linear form: atom -> coefficient, with "" for the constant term.
+type linForm map[string]int64
+
+func (a linForm) add(b linForm, k int64) linForm {
+	out := linForm{}
+	for x, c := range a {
+		out[x] += c
+	}
+	for x, c := range b {
+		out[x] += k * c
+	}
+	for x, c := range out {
+		if c == 0 {
+			delete(out, x)
+		}
+	}
+	return out
+}
+
+func (a linForm) isZero() bool { return len(a) == 0 }
+
+func (a linForm) String() string {
+	var keys []string
+	for k := range a {
+		keys = append(keys, k)
+	}
+	for i := 0; i < len(keys); i++ {
+		for j := i + 1; j < len(keys); j++ {
+			if keys[j] < keys[i] {
+				keys[i], keys[j] = keys[j], keys[i]
+			}
+		}
+	}
+	s := ""
+	for _, k := range keys {
+		c := a[k]
+		if k == "" {
+			s += fmt.Sprintf(" %+d", c)
+		} else {
+			s += fmt.Sprintf(" %+d*%s", c, k)
+		}
+	}
+	if s == "" {
+		return "0"
+	}
+	return strings.TrimSpace(s)
+}
+
+// linOf computes the linear form of integer expression e as evaluated at its own vertex.
+// Variables listed in opaque are kept as atoms (not replaced by their definitions).
+func linOf(p *Prog, fc *FuncCtx, e ast.Expr, opaque ...types.Object) linForm {
+	n := &normCtx{p: p, fc: fc, subst: map[types.Object]string{}, at: fc.G.VertexOf(e)}
+	if r := fc.RecvObj(); r != nil {
+		n.subst[r] = "recv"
+	}
+	for _, o := range opaque {
+		if o != nil {
+			n.subst[o] = o.Name()
+		}
+	}
+	return n.lin(e)
+}
+
+// linOfAt evaluates variable obj's value on entry to vertex at.
+func linOfVarAt(p *Prog, fc *FuncCtx, obj types.Object, at int) linForm {
+	n := &normCtx{p: p, fc: fc, subst: map[types.Object]string{}, at: at}
+	if r := fc.RecvObj(); r != nil {
+		n.subst[r] = "recv"
+	}
+	return n.linVar(obj, obj.Name())
+}
+
+func (n *normCtx) lin(e ast.Expr) linForm {
+	info := n.fc.Info()
+	e = ast.Unparen(e)
+	if n.depth > 24 {
+		return linForm{"<deep>": 1}
+	}
+	n.depth++
+	defer func() { n.depth-- }()
+	if k, ok := constInt(info, e); ok {
+		if k == 0 {
+			return linForm{}
+		}
+		return linForm{"": k}
+	}
+	switch x := e.(type) {
+	case *ast.Ident:
+		o := objOf(info, x)
+		if s, ok := n.subst[o]; ok {
+			return linForm{s: 1}
+		}
+		if o != nil {
+			return n.linVar(o, x.Name)
+		}
+	case *ast.BinaryExpr:
+		switch x.Op {
+		case token.ADD:
+			return n.lin(x.X).add(n.lin(x.Y), 1)
+		case token.SUB:
+			return n.lin(x.X).add(n.lin(x.Y), -1)
+		case token.MUL:
+			if k, ok := constInt(info, x.X); ok {
+				return linForm{}.add(n.lin(x.Y), k)
+			}
+			if k, ok := constInt(info, x.Y); ok {
+				return linForm{}.add(n.lin(x.X), k)
+			}
+		}
+	case *ast.UnaryExpr:
+		if x.Op == token.SUB {
+			return linForm{}.add(n.lin(x.X), -1)
+		}
+	case *ast.CallExpr:
+		if inner, ok := isConversion(info, x); ok {
+			return n.lin(inner)
+		}
+	}
+	return linForm{n.expr(e): 1}
+}
+
+func (n *normCtx) linVar(o types.Object, name string) linForm {
+	info := n.fc.Info()
+	v, isVar := o.(*types.Var)
+	if !isVar || v.IsField() || v.Pkg() == nil || v.Parent() == v.Pkg().Scope() || n.at < 0 {
+		return linForm{name: 1}
+	}
+	rd := n.fc.ReachingDefs(n.at, o)
+	if len(rd) != 1 || rd[0] == n.fc.G.Entry {
+		return linForm{name: 1}
+	}
+	dv := n.fc.G.V[rd[0]]
+	sub := *n
+	sub.at = rd[0]
+	switch st := dv.Node.(type) {
+	case *ast.AssignStmt:
+		if len(st.Lhs) != len(st.Rhs) {
+			return linForm{name: 1}
+		}
+		for i, l := range st.Lhs {
+			if objOf(info, l) != o {
+				continue
+			}
+			rhs := sub.lin(st.Rhs[i])
+			switch st.Tok {
+			case token.ASSIGN, token.DEFINE:
+				return rhs
+			case token.ADD_ASSIGN:
+				return sub.linVar(o, name).add(rhs, 1)
+			case token.SUB_ASSIGN:
+				return sub.linVar(o, name).add(rhs, -1)
+			}
+		}
+	case *ast.ValueSpec:
+		for i, id := range st.Names {
+			if info.Defs[id] == o {
+				if len(st.Values) == len(st.Names) {
+					return sub.lin(st.Values[i])
+				}
+				if len(st.Values) == 0 {
+					return linForm{} // zero value
+				}
+			}
+		}
+	}
+	return linForm{name: 1}
+}
